@@ -276,7 +276,6 @@ func expandC07(t *testing.T, seed uint64, tier string) []*core.Plan {
 	return out
 }
 
-
 func armFault(p *Peer, mode, k int) {
 	switch mode {
 	case 1:
@@ -515,7 +514,7 @@ func judgeC07(w *World, pb *publisher, obs *Peer, p *core.Plan, res *core.Result
 	}
 	// walk each connection's events in order
 	for _, c := range pb.conns {
-		lastQ1 := map[packet.ID]int{}       // id -> tag of the latest QoS 1 PUBLISH received
+		lastQ1 := map[packet.ID]int{} // id -> tag of the latest QoS 1 PUBLISH received
 		lastQ1At := map[packet.ID]uint64{}
 		lastRel := map[packet.ID]uint64{} // id -> seq of the latest PUBREL received
 		relAnswered := map[uint64]bool{}
